@@ -11,6 +11,7 @@ mod sched_engine;
 mod sched_gen;
 mod serve_engine;
 mod val;
+mod watch;
 
 use std::io::{BufRead, Write};
 
@@ -36,13 +37,30 @@ fn main() {
             let out = arg(&args, "--out").expect("--out");
             let thorough = tier == "thorough";
             let mut rng = rng::Rng::new(seed);
-            let mut cases = std::io::BufWriter::new(std::fs::File::create(format!("{}.cases", out)).unwrap());
-            let mut meta = std::io::BufWriter::new(std::fs::File::create(format!("{}.meta", out)).unwrap());
-            let mut n = 0u64;
+            // resumption after a case that did not return (see watch.rs): --from K skips the cases
+            // before K and appends; --hung lists cases never to execute; --only K runs just case K
+            let from: u64 = arg(&args, "--from").and_then(|s| s.parse().ok()).unwrap_or(0);
+            let only: Option<u64> = arg(&args, "--only").and_then(|s| s.parse().ok());
+            let hung: Vec<u64> = arg(&args, "--hung").map(|s| s.split(',').filter_map(|x| x.parse().ok()).collect()).unwrap_or_default();
+            watch::init(from, only, hung);
+            watch::start_watchdog(arg(&args, "--case-limit").and_then(|s| s.parse().ok()).unwrap_or(10));
+            let open = |path: String| {
+                let f = if watch::resumed() {
+                    std::fs::OpenOptions::new().append(true).create(true).open(path).unwrap()
+                } else {
+                    std::fs::File::create(path).unwrap()
+                };
+                std::io::LineWriter::new(f)
+            };
+            let mut cases = open(format!("{}.cases", out));
+            let mut meta = open(format!("{}.meta", out));
             let mut emit_serve = |c: serve_engine::ServeCase| {
+                let idx = match watch::gate(&c.class) {
+                    Some(i) => i,
+                    None => return,
+                };
                 let o = serve_engine::run(&c);
-                let id = format!("{}-{}", prop, n);
-                n += 1;
+                let id = format!("{}-{}", prop, idx);
                 let v = val::Val::L(vec![o.input, o.obs]);
                 writeln!(cases, "serve {} {}", id, v.to_string()).unwrap();
                 writeln!(meta, "{}\t{}\t{}", id, c.class.replace('\t', " ").replace('\n', " "), o.checks.join(",")).unwrap();
@@ -51,11 +69,13 @@ fn main() {
             let stream_props = ["C08", "C09", "C11", "C17"];
             if stream_props.contains(&prop.as_str()) {
                 drop(emit_serve);
-                let mut k = 0u64;
                 let mut emit_stream = |c: stream_engine::StreamCase| {
+                    let idx = match watch::gate(&c.class) {
+                        Some(i) => i,
+                        None => return,
+                    };
                     let o = stream_engine::run(&c);
-                    let id = format!("{}-{}", prop, k);
-                    k += 1;
+                    let id = format!("{}-{}", prop, idx);
                     let v = val::Val::L(vec![o.input, o.obs]);
                     writeln!(cases, "stream {} {}", id, v.to_string()).unwrap();
                     writeln!(meta, "{}\t{}\t", id, c.class.replace('\t', " ").replace('\n', " ")).unwrap();
@@ -73,9 +93,14 @@ fn main() {
                     let mut total = 0usize;
                     let mut exhausted_all = true;
                     sched_gen::gen_c11(&mut rng, thorough, &mut |c: sched_engine::SchedCase| {
+                        let idx = match watch::gate(&c.class) {
+                            Some(i) => i,
+                            None => return,
+                        };
                         let max = if thorough { 2000 } else { 200 };
                         let (n, ex) = sched_engine::explore(&c, max, &mut |r| {
-                            let id = format!("{}-X{}", prop, k);
+                            watch::tick();
+                            let id = format!("{}-X{}-{}", prop, idx, k);
                             k += 1;
                             writeln!(cases, "{}", sched_engine::case_line(&id, &c, r)).unwrap();
                             let mut checks = vec![];
@@ -122,11 +147,13 @@ fn main() {
                     gen_serve::gen_chunkings(&mut rng, false, &mut emit_serve);
                     // the streaming body kind: hints and the flag sampled after every operation
                     drop(emit_serve);
-                    let mut k = 0u64;
                     let mut emit_stream = |c: stream_engine::StreamCase| {
+                        let idx = match watch::gate(&c.class) {
+                            Some(i) => i,
+                            None => return,
+                        };
                         let o = stream_engine::run(&c);
-                        let id = format!("{}-S{}", prop, k);
-                        k += 1;
+                        let id = format!("{}-S{}", prop, idx);
                         let v = val::Val::L(vec![o.input, o.obs]);
                         writeln!(cases, "stream {} {}", id, v.to_string()).unwrap();
                         writeln!(meta, "{}\t{}\t", id, c.class.replace('\t', " ").replace('\n', " ")).unwrap();
@@ -153,9 +180,14 @@ fn main() {
                     let mut total = 0usize;
                     let mut exhausted_all = true;
                     sched_gen::gen_c10(&mut rng, thorough, &mut |c: sched_engine::SchedCase| {
+                        let idx = match watch::gate(&c.class) {
+                            Some(i) => i,
+                            None => return,
+                        };
                         let max = if thorough { 4000 } else { 400 };
                         let (n, ex) = sched_engine::explore(&c, max, &mut |r| {
-                            let id = format!("{}-{}", prop, k);
+                            watch::tick();
+                            let id = format!("{}-{}-{}", prop, idx, k);
                             k += 1;
                             writeln!(cases, "{}", sched_engine::case_line(&id, &c, r)).unwrap();
                             let mut checks = vec![];
@@ -171,10 +203,12 @@ fn main() {
                 }
                 "C16" => {
                     drop(emit_serve);
-                    let mut k = 0u64;
                     negot::gen_c16(&mut rng, thorough, &mut |c: negot::NegotCase| {
-                        let id = format!("{}-{}", prop, k);
-                        k += 1;
+                        let idx = match watch::gate(&c.class) {
+                            Some(i) => i,
+                            None => return,
+                        };
+                        let id = format!("{}-{}", prop, idx);
                         writeln!(cases, "{}", negot::case_line(&id, &c)).unwrap();
                         writeln!(meta, "{}\t{}\t", id, c.class.replace('\t', " ").replace('\n', " ")).unwrap();
                     });
@@ -185,17 +219,24 @@ fn main() {
                     let tmp = tempfile::tempdir().unwrap();
                     let mut k = 0u64;
                     file_engine::gen_c18(&mut rng, thorough, &mut |c: file_engine::FileCase| {
-                        let id = format!("{}-{}", prop, k);
-                        k += 1;
+                        let idx = match watch::gate(&c.class) {
+                            Some(i) => i,
+                            None => return,
+                        };
+                        k = idx + 1;
+                        let id = format!("{}-{}", prop, idx);
                         let mut checks = vec![];
                         let line = file_engine::run(&rt, tmp.path(), &c, &mut checks);
                         writeln!(cases, "file {} {}", id, line).unwrap();
                         writeln!(meta, "{}\t{}\t{}", id, c.class, checks.join(",")).unwrap();
                     });
                     // validators across instances and the entity through serve(): harness-level checks
+                    if watch::gate("H:validators-and-serve").is_none() {
+                        return;
+                    }
                     let mut checks = file_engine::validator_checks(tmp.path());
                     checks.extend(file_engine::serve_checks(&rt, tmp.path()));
-                    let id = format!("{}-{}", prop, k);
+                    let id = format!("{}-H{}", prop, k);
                     let c = file_engine::FileCase { kind: 0, size: 5, a: 1, e: 4, truncs: vec![], class: "H:validators-and-serve".into() };
                     let mut c2 = vec![];
                     let line = file_engine::run(&rt, tmp.path(), &c, &mut c2);
@@ -208,10 +249,12 @@ fn main() {
                     let rt = tokio::runtime::Builder::new_multi_thread().worker_threads(2).enable_all().build().unwrap();
                     let tree = dir_engine::make_tree();
                     let base_file = std::fs::File::open(&tree.base).unwrap();
-                    let mut k = 0u64;
                     dir_engine::gen_c19(&mut rng, thorough, &mut |c: dir_engine::DirCase| {
-                        let id = format!("{}-{}", prop, k);
-                        k += 1;
+                        let idx = match watch::gate(&c.class.replace('\0', "\\0")) {
+                            Some(i) => i,
+                            None => return,
+                        };
+                        let id = format!("{}-{}", prop, idx);
                         writeln!(cases, "dir {} {}", id, dir_engine::run(&rt, &tree, &base_file, &c)).unwrap();
                         writeln!(meta, "{}\t{}\t", id, c.class.replace('\t', " ").replace('\n', " ").replace('\0', "\\0")).unwrap();
                     });
